@@ -74,6 +74,20 @@ const (
 
 type c13Reply struct{ V int }
 
+// c13NetErr is a transport error that reports itself as a timeout or a cancellation of its own
+// (net/http's Client.Timeout error, net's dial timeout and "operation was canceled" errors do so
+// through an Is method) while the caller's context is still live.
+type c13NetErr struct{ canceled bool }
+
+func (e c13NetErr) Error() string { return "net: i/o timeout" }
+func (e c13NetErr) Timeout() bool { return !e.canceled }
+func (e c13NetErr) Is(target error) bool {
+	if e.canceled {
+		return target == context.Canceled
+	}
+	return target == context.DeadlineExceeded
+}
+
 // Harness_C13_retryLoop: the retry discipline over all server response sequences of length <= 3.
 //
 //verif:opt maxpaths=40000 reach=success,immediate-error,context-ended wall=900
@@ -112,10 +126,24 @@ func Harness_C13_retryLoop() {
 		retryAfter, raSeconds, raKind = append(retryAfter, ra), append(raSeconds, secs), append(raKind, kind)
 	}
 	lastBody := []byte(nil)
+	// what a failing transport reports: a plain error, or one that calls itself a timeout / a cancellation (the caller's context is live)
+	transportErr := 0
+	for _, o := range outcomes {
+		if o == oTransport {
+			transportErr = vChoice("transport-error-kind", 3)
+			break
+		}
+	}
 	srv.respond = func(n int, req *http.Request) (*http.Response, error) {
 		vAssert(req.Method == http.MethodPost, "every attempt is a POST")
 		o := outcomes[n-1]
 		if o == oTransport {
+			switch transportErr {
+			case 1:
+				return nil, c13NetErr{}
+			case 2:
+				return nil, c13NetErr{canceled: true}
+			}
 			return nil, errors.New("connection refused")
 		}
 		status := map[int]int{oGood: 200, oUnparsable: 200, o408: 408, o429: 429, o503: 503, oOther: otherStatus, oRedirected: 200}[o]
